@@ -238,12 +238,12 @@ EXTRA = {
  "C05": " Also: validateTotalCost passes an in-block transaction only if the signer's balance covers amount + tips + fee, and the VM empties all its buffers before each contract run (what a failed call buffered is never committed by a later transaction of the block).",
  "C06": " Also: ValidateTx never accepts a transaction of a past epoch, whatever its origin (block, mempool, inbound, deferred, restored), nor one whose nonce is consumed; the nonce/epoch setters mark the account dirty so that the commit writes them.",
  "C16": " Also: the pairing rule (nobody is paired with themselves or twice with the same partner while another choice is left in the queue), the first distribution (index in range, relations recorded as inverses), the short-flip chooser (index inside the author's flips), no dependence on map iteration order, and long-session lists never empty.",
- "C20": " Also: every immediate pull registers its time with the tracker (first and further announcers).",
+ "C20": " Also: every immediate pull registers its time with the tracker (first and further announcers); the tracker's test whether the item is already stored is the one taken after waiting out the pull delay.",
  "C07": " Also the vote counter: countVotes draws the committee for this round, step and step kind, uses quorum = threshold - allowance(configured agreement threshold), reads the votes of this round; its counting callback admits a vote only under its signer's address, for this parent hash and step, from an approved committee member, into the tally of its voted hash, reports success only with the quorum and the voted hash, and takes certificate votes from that tally (that sync.Map.Range composes the callback steps is not under contract).",
  "C08": " Also: checkForkSize never indexes past the fork answer (inductive loop invariant; a non-contiguous answer is refused first - defect F4, found by this obligation, replayed and fixed).",
  "C10": " Also: calculateFlags sets the IdentityUpdate flag for every block containing a KillTx, KillInviteeTx or KillDelegatorTx and whenever epoch results are applied (loop invariant), so the in-memory registry is refreshed whenever the stored one changes that way; ValidatorsCache.Clone shares no mutable collection with its source.",
  "C12": " Also: ForkResolver.checkForkSize cannot index out of range for any fork answer (defect F4 found and fixed); Hash128.SetBytes / BytesToHash128 (push/pull hashes of any peer-chosen length) and KeysPool.GetEncryptedPrivateFlipKey (key packages of any peer-chosen size) cannot panic.",
- "C13": " Also: the six ledger/registry view constructors write nothing that existed before (proved frames), and AppState.ForCheck / ForCheckWithOverwrite assemble a view whose validators cache is built from and loaded out of the view's OWN identity registry (a clone of the node's cache only when it is at the requested height); clonePools shares no pool data with its source.",
+ "C13": " Also: the six ledger/registry view constructors write nothing that existed before (proved frames), and AppState.ForCheck / ForCheckWithOverwrite assemble a view whose validators cache is built from and loaded out of the view's OWN identity registry (a clone of the node's cache only when it is at the requested height); clonePools shares no pool data with its source; Iterator/ReverseIterator of the copy-on-write store always hand out the merged iterator over the same range and direction (never the permanent iterator bare).",
  "C15": " Also: VmImpl.Run resets the environment buffers and the gas counter (to the given limit) before deploy/call/terminate runs; EnvImp.Commit writes to the ledger only entries of the matching buffer with their buffered values and returns the buffered events.",
  "C17": " Also: the identities walked for the flip lottery are stored for a restart exactly as handled, candidates and non-candidates alike (a restarted node kills/suspends the same non-participants).",
  "C18": " FullBlockCert.Compress keeps per vote exactly that vote's signature, upgrade bits and offline flag. State records (account, identity scalar part) and receipts are covered field by field as well; the Global record (canonical order of its map entries via sort.SliceStable) is not.",
